@@ -459,6 +459,51 @@ func sendCommands(e *Env) {
 			}
 		})
 	}
+	// C11: other goroutines split and send long texts at the same time, to their
+	// own targets; a slow server keeps the queue full so that a caller is parked
+	// in the middle of its sequence of pieces
+	type talk struct {
+		target string
+		texts  []string
+	}
+	var talkers []*talk
+	talkDone := 0
+	if c11 && g.Pct(50) {
+		if g.Bool() {
+			s.pause = func() { simrt.Sleep(time.Duration(e.S.Choose(30)) * time.Millisecond) }
+		}
+		for k := g.Range(1, 2); k > 0; k-- {
+			tk := &talk{target: fmt.Sprintf("#talk%d", k)}
+			for c := g.Range(1, 6); c > 0; c-- {
+				n := g.Range(30, 2500)
+				b := make([]byte, n)
+				for i := range b {
+					b[i] = "abcdefghij klm.nop, qrs"[(i*7+c*3+k)%23]
+				}
+				tk.texts = append(tk.texts, fmt.Sprintf("t%d.c%d|", k, c)+string(b)+"$")
+			}
+			talkers = append(talkers, tk)
+			e.S.Spawn("talker"+tk.target, func() {
+				for _, t := range tk.texts {
+					if e.S.Choose(2) == 0 {
+						s.c.Privmsg(tk.target, t)
+					} else {
+						s.c.Notice(tk.target, t)
+					}
+					simrt.Sleep(time.Duration(e.S.Choose(20)) * time.Millisecond)
+				}
+				talkDone++
+			})
+		}
+	}
+	isTalk := func(ln string) bool {
+		for _, tk := range talkers {
+			if strings.HasPrefix(ln, "PRIVMSG "+tk.target+" :") || strings.HasPrefix(ln, "NOTICE "+tk.target+" :") {
+				return true
+			}
+		}
+		return false
+	}
 	ncalls := g.Range(1, 25)
 	pos := 0
 	for k := 0; k < ncalls && !e.S.Failed(); k++ {
@@ -499,12 +544,31 @@ func sendCommands(e *Env) {
 		}
 		e.S.Logf("call %s(%q) SplitLen=%d", cc.name, args[:cc.args], sl)
 		cc.call(s.c, args)
-		simrt.Settle(time.Second)
-		// attribute: lines since pos that are not noise belong to this call
+		// a marker line issued after the call returns: the single output queue is
+		// FIFO, so everything the call wrote precedes the marker on the wire
+		mark := fmt.Sprintf("MARK %d", k)
+		s.c.Raw(mark)
+		marked := func() bool {
+			for i := pos; i < len(s.lines); i++ {
+				if s.lines[i] == mark {
+					return true
+				}
+			}
+			return false
+		}
+		if !simrt.BlockFor("send", "the marker line after the call", 6*time.Hour, marked) {
+			e.Violation("stuck", "%s(%s): the lines of the call did not reach the server although it keeps reading\n%s", cc.name, clipq(args[:cc.args]), e.S.TaskDump())
+			return
+		}
+		// attribute: lines up to the marker that are not noise belong to this call
 		var mine []string
 		for ; pos < len(s.lines); pos++ {
 			ln := s.lines[pos]
-			if strings.HasPrefix(ln, "NOISE ") || autoPong[ln] {
+			if ln == mark {
+				pos++
+				break
+			}
+			if strings.HasPrefix(ln, "NOISE ") || autoPong[ln] || isTalk(ln) {
 				continue
 			}
 			mine = append(mine, ln)
@@ -520,7 +584,50 @@ func sendCommands(e *Env) {
 	}
 	stopNoise = true
 	stopPings = true
+	if len(talkers) > 0 {
+		simrt.BlockFor("send", "talkers", 6*time.Hour, func() bool { return talkDone == len(talkers) })
+		s.c.Raw("MARK end")
+		if !simrt.BlockFor("send", "the final marker", 6*time.Hour, func() bool { return len(s.lines) > 0 && s.lines[len(s.lines)-1] == "MARK end" }) {
+			e.Violation("stuck", "the concurrent callers' lines did not all reach the server\n%s", e.S.TaskDump())
+			return
+		}
+	}
 	simrt.Settle(5 * time.Second)
+	// each talker's texts must come out losslessly too, piece after piece
+	for _, tk := range talkers {
+		var pieces []string
+		for _, ln := range s.lines {
+			for _, pre := range []string{"PRIVMSG " + tk.target + " :", "NOTICE " + tk.target + " :"} {
+				if strings.HasPrefix(ln, pre) {
+					pieces = append(pieces, ln[len(pre):])
+				}
+			}
+		}
+		i := 0
+		for _, want := range tk.texts {
+			var got strings.Builder
+			n := 0
+			for i < len(pieces) {
+				p := pieces[i]
+				i++
+				n++
+				if strings.HasSuffix(p, "$") {
+					got.WriteString(p)
+					break
+				}
+				if !strings.HasSuffix(p, "...") {
+					e.Violation("no-marker", "concurrent caller %s: piece %q is neither the end of its text nor marked as continued", tk.target, clip(p))
+					return
+				}
+				got.WriteString(p[:len(p)-3])
+			}
+			e.Check()
+			if got.String() != want {
+				e.Violation("lossy", "concurrent caller %s: the %d pieces of one call join to %d bytes, the text has %d; first difference at byte %d (pieces of another caller's text?)", tk.target, n, got.Len(), len(want), firstDiff(got.String(), want))
+				return
+			}
+		}
+	}
 	if !c11 && !e.S.Failed() {
 		checkStream(e, s, noiseSent)
 	}
